@@ -168,6 +168,39 @@ def c08_block_decoder(rep, crate, cfg):
                     extra_exits.append((b, s_))
             rep.check(n_iter == 1, R1, f.key, "intake-exhausts-iterator", where,
                       "the accumulation loop has the exit 'packet iterator exhausted'", {"exit_edges": ["bb%d->bb%d" % e for e in exits]}, cfg)
+        # C08-R6: what happens after the intake loop depends on the accumulated state only.  A user variable that is
+        # written inside the loop (a per-call counter, a flag "something new arrived", the last packet) and read after
+        # it makes the answer depend on how the same set of packets is split over calls.
+        if ok_loop:
+            from ..absint import places_of
+            body = ls.loops_raw[ls.loops[0]["head"]]
+            carried = set()
+            for b in body:
+                blk = f.blocks[b]
+                if blk["cleanup"]:
+                    continue
+                for s_ in blk["stmts"]:
+                    if s_["s"] == "assign" and f.locals[s_["lhs"]["l"]].get("user") and s_["lhs"]["l"] > f.argc:
+                        carried.add(s_["lhs"]["l"])
+                t_ = blk["term"]
+                if t_["t"] == "call" and t_.get("dest") and f.locals[t_["dest"]["l"]].get("user") and t_["dest"]["l"] > f.argc:
+                    carried.add(t_["dest"]["l"])
+            leaks = set()
+            live_ = f.cfg._can_reach_exit()
+            for blk in f.blocks:
+                if blk["cleanup"] or blk["i"] in body or blk["i"] not in f.cfg.reach or blk["i"] not in live_:
+                    continue            # (panic paths leaving the loop never produce an answer)
+                nodes = [s_ for s_ in blk["stmts"] if s_["s"] == "assign"] + [blk["term"]]
+                for nd in nodes:
+                    if nd.get("t") in ("drop", "storage"):
+                        continue
+                    for pl in places_of(nd):
+                        if pl["l"] in carried and not (nd.get("s") == "assign" and nd["lhs"] is pl) and pl is not nd.get("dest"):
+                            leaks.add(f.locals[pl["l"]].get("name") or "_%d" % pl["l"])
+            rep.check(not leaks, "C08-R6", f.key, "answer-from-accumulated-state", where,
+                      "after the intake loop no variable written per packet of this call is read: the decision to answer and the "
+                      "answer depend on the decoder's accumulated state only (same set of packets => same outcome, however batched)",
+                      {"per-call variables read after the loop": sorted(leaks)}, cfg)
         pid = ("field", ("call", "base::EncodingPacket::split", (ITEM,)), 0)
         ESI = N(("call", "base::PayloadId::encoding_symbol_id", (("ref", pid),)))
         INS = None
